@@ -408,7 +408,89 @@ class MsgLink:
 ByteLink.close_calls = None
 
 
+class _FakeWebsocket:
+    """What WebsocketsTransport.handler() needs from a `websockets` connection: async iteration over incoming
+    messages and an async send()."""
+
+    def __init__(self, link, side):
+        self.link = link
+        self.side = side
+        self.inbox = asyncio.Queue()
+
+    def __aiter__(self):
+        return self
+
+    async def __anext__(self):
+        msg = await self.inbox.get()
+        if msg is None:
+            raise StopAsyncIteration
+        return msg
+
+    async def send(self, msg):
+        link = self.link
+        k = link.knobs[self.side]
+        other = 's' if self.side == 'c' else 'c'
+        link.sent[self.side] += 1
+        await _wait(k.drain, k.rng)
+        link.queues[self.side].put_nowait(bytes(msg))
+
+
+class WsLink:
+    """The repository's real WebsocketsTransport on both sides, each driven by its handler() coroutine over a
+    fake websocket; a pump per direction applies the latency knob."""
+
+    framing = 'messages'
+
+    def __init__(self, rng, knobs_c=None, knobs_s=None, tap=None):
+        from rsocket.transports.websockets_transport import WebsocketsTransport
+        self.rng = rng
+        self.tap = tap or Tap()
+        self.knobs = {'c': knobs_c or Knobs(rng), 's': knobs_s or Knobs(rng)}
+        self.broken = None
+        self.write_fail_at = {}
+        self.close_calls = {}
+        self.sent = {'c': 0, 's': 0}
+        self.delivered_msgs = {'c': 0, 's': 0}
+        self.queues = {'c': asyncio.Queue(), 's': asyncio.Queue()}
+        self.sockets = {'c': _FakeWebsocket(self, 'c'), 's': _FakeWebsocket(self, 's')}
+        self.transports = {}
+        for side in 'cs':
+            cls = tapped(WebsocketsTransport, self.tap, side, self)
+            self.transports[side] = cls()
+        self.tasks = {}
+        for side, other in (('c', 's'), ('s', 'c')):
+            self.tasks['pump-' + side] = asyncio.ensure_future(self._pump(side, other))
+            self.tasks['handler-' + side] = asyncio.ensure_future(self.transports[side].handler(self.sockets[side]))
+
+    async def _pump(self, src, dst):
+        k = self.knobs[src]
+        try:
+            while True:
+                msg = await self.queues[src].get()
+                await _wait(k.latency, k.rng)
+                self.delivered_msgs[src] += 1
+                self.sockets[dst].inbox.put_nowait(msg)
+        except asyncio.CancelledError:
+            pass
+
+    def delivered(self, side):
+        return self.delivered_msgs[side]
+
+    def cut(self, mode='error', spare=None):
+        self.broken = mode
+        self.stop()
+
+    def closed_by(self, side):
+        pass
+
+    def stop(self):
+        for t in self.tasks.values():
+            t.cancel()
+
+
 def make_link(kind, rng, knobs_c=None, knobs_s=None):
+    if kind == 'ws':
+        return WsLink(rng, knobs_c, knobs_s)
     if kind == 'bytes':
         link = ByteLink.__new__(ByteLink)
         link.close_calls = {}
